@@ -139,6 +139,12 @@ def Circuit.absRun (c : Circuit) (wit : Array Nat) : Option (Array AbsVal × Arr
   passGates true c.gates.toArray #[] #[] wit c.gates 0
     (initAbs c.numWires c.nIn) (initDef c.numWires c.nIn)
 
+/-- Abstract value of an output wire: a wire that no gate drives (and that
+is not an input) reads 0 (`Compute`: `make([]byte, NumWires)`; the GMW
+divider leaves such wires, see the C09 findings). -/
+def outAbs (abs : Array AbsVal) (d : Array Bool) (w : Nat) : AbsVal :=
+  if d.getD w false then abs.getD w default else .const false
+
 /-- The checker. -/
 def checkRefines (C C' : Circuit) (witC witC' : Array Nat) : Bool :=
   C.nIn == C'.nIn && C.nOut == C'.nOut &&
@@ -152,10 +158,7 @@ def checkRefines (C C' : Circuit) (witC witC' : Array Nat) : Bool :=
     | none => false
     | some (m, d') =>
       (List.range C.nOut).all fun i =>
-        dC.getD (C.numWires - C.nOut + i) false &&
-        d'.getD (C'.numWires - C'.nOut + i) false &&
-        (m.getD (C'.numWires - C'.nOut + i) default ==
-          absC.getD (C.numWires - C.nOut + i) default)
+        outAbs m d' (C'.numWires - C'.nOut + i) == outAbs absC dC (C.numWires - C.nOut + i)
 
 /-- Diagnostic variant used by the driver: where the check stops. -/
 def checkRefinesDiag (C C' : Circuit) (witC witC' : Array Nat) : String :=
